@@ -55,6 +55,9 @@ Resume(ev) ==
        ELSE /\ last' = [called |-> 0, result |-> "nothing"] /\ UNCHANGED <<inflight, held>>
     /\ UNCHANGED <<on, T, fb, role>>
 
+\* time passes (however long the inner call takes, the admission is released when it finishes)
+Adv(ev) == ev.e = "adv" /\ on /\ UNCHANGED tvars
+
 TowerInit == on = FALSE /\ T = 1 /\ fb = FALSE /\ role = "server" /\ inflight = 0 /\ last = [called |-> 0, result |-> "none"] /\ held = <<>>
 
 \* the inner service is called exactly once iff the request was admitted
